@@ -25,12 +25,14 @@ Proof.
   cbn [forallb] in H. apply andb_true_iff in H as [_ H]. now apply IH.
 Qed.
 
-Lemma parse_version_open op rest : In op ops -> opnext rest = true -> forallb numc rest = true ->
-  parse_version (ch 40 :: op ++ rest) = Err.
+Lemma parse_version_open op rest x : In op ops -> opnext (rest ++ x) = true -> forallb numc rest = true -> bad_in_number (peek x) = true ->
+  parse_version (ch 40 :: op ++ rest ++ x) = Err.
 Proof.
-  intros Ho Hn Hr. unfold parse_version. cbn [eat_ws]. change (is_ws (ch 40)) with false. cbv iota. cbn [adv tl].
-  rewrite (parse_operator_op op rest Ho Hn). cbv iota beta.
-  now rewrite (reject_open_paren (eat_ws rest) [] (numc_suffix rest Hr)).
+  intros Ho Hn Hr B. unfold parse_version. cbn [eat_ws]. change (is_ws (ch 40)) with false. cbv iota. cbn [adv tl].
+  rewrite (parse_operator_op op (rest ++ x) Ho Hn). cbv iota beta.
+  assert (Hx : is_ws (peek x) = false) by (destruct x as [|c r]; [reflexivity|]; cbn [peek] in *; now apply bad_number_facts).
+  rewrite (eat_ws_keeps rest x Hx).
+  now rewrite (reject_open_paren (eat_ws rest) [] x (numc_suffix rest Hr) B).
 Qed.
 
 Section First.
@@ -63,12 +65,13 @@ Section First.
       apply controllers_version_err; [exact Hw|exact Hv|now apply parse_version_bad_operator].
   Qed.
 
-  (* "foo [amd64] (>= 1.0": a version clause that is never closed - no ')' up to the end of the input *)
-  Theorem C04_reject_unterminated_version w op rest : all_ws w -> p_ver (result name q cl) = None ->
-    In op ops -> opnext rest = true -> forallb numc rest = true ->
-    parse (name ++ qual_text q ++ clauses_text cl ++ w ++ ch 40 :: op ++ rest) = Err.
+  (* "foo [amd64] (>= 1.0", "foo (>= 1.0, bar (>= 2.0)": a version clause that is not closed before the end of the
+     input (x = []), the next separator or the next '(' - whatever x holds behind that *)
+  Theorem C04_reject_unterminated_version w op rest x : all_ws w -> p_ver (result name q cl) = None ->
+    In op ops -> opnext (rest ++ x) = true -> forallb numc rest = true -> bad_in_number (peek x) = true ->
+    parse (name ++ qual_text q ++ clauses_text cl ++ w ++ ch 40 :: op ++ rest ++ x) = Err.
   Proof.
-    intros Hw Hv Ho Hn Hr. apply parse_err_first; try assumption.
+    intros Hw Hv Ho Hn Hr B. apply parse_err_first; try assumption.
     - now apply (clauses_head cl (base name q)).
     - apply clauses_then; [exact W|]. exists 1%nat. intros [|f] Hf; [lia|].
       apply controllers_version_err; [exact Hw|exact Hv|now apply parse_version_open].
